@@ -21,7 +21,7 @@ func runC04(c *Ctx) {
 	c07StampGuard(c)
 	c07StampContent(c)
 	c19Addresses(c, "key-agreement")
-	ruleLoopCaptureReaching(c, "bind-sites", "a response would be attributed to the source of a later datagram, and the dialog bound to the wrong backend", "NewRawMessage")
+	ruleNoLoopCapture(c, "bind-sites", "a response is attributed to the source of a later datagram, or every replayed backend notification names the backend visited last - the address index misses backends, and dialogs they answer are bound to the pool")
 	// the pin is only as good as its key and its lifetime: the identity rules of C16 and the
 	// expiry/sweep rules of C15 are necessary conditions of stickiness as well
 	runC16(c)
